@@ -157,7 +157,7 @@ RunFrom(prog, regs, alg, adim, ain, olds, k) ==
   ELSE RunFrom(prog, Append(regs, IF prog[k].op = "old" THEN olds[prog[k].a] ELSE ModelExec(prog[k], regs, alg, adim, ain)), alg, adim, ain, olds, k + 1)
 ModelPair(regs, pr) ==
   LET a == regs[pr.i] b == regs[pr.j] both == IsUnit(a) /\ IsUnit(b) IN
-  [i |-> pr.i, j |-> pr.j, kind |-> pr.kind, eq |-> UEq(a, b), eqr |-> UEq(b, a),
+  [i |-> pr.i, j |-> pr.j, kind |-> pr.kind, eq |-> UEq(a, b), eqr |-> UEq(b, a), ne |-> ~UEq(a, b), ner |-> ~UEq(b, a),
    heq |-> both /\ UHashEq(a, b), same |-> both /\ SameExpr(a, b),
    serr |-> IF both /\ a.lg = b.lg /\ a.neg = b.neg THEN 0 ELSE FarTol]
 \* the atom universe of a case = the atoms of its leaves (keeps the vectors short)
